@@ -13,6 +13,9 @@ def execute(spec, ctx, clause="gen_params"):
     run = gp.run_gen_params(spec, ctx)
     if run.exc is not None:
         if isinstance(run.exc, gp.CLEAN):
+            if "find block" in str(run.exc):
+                # every residue name of a generated residue graph has a block of exactly that name in the inputs
+                raise Violation(f"{clause}:block_not_found", f"a block that the inputs define was not found: {run.exc}")
             ctx.label("clean_rejection")
             raise Reject(str(run.exc))
         raise crash(f"{clause}:crash", run.exc)
